@@ -298,7 +298,7 @@ pub mod derivedprobe {
         const fn run_migration(_env: &Env, _migration_data: ()) {}
     }
 }
-pub use derivedprobe::{DerivedProbe, DerivedProbeClient};
+pub use derivedprobe::DerivedProbe;
 
 #[allow(unused_imports)]
 pub mod verprobe {
@@ -382,4 +382,4 @@ pub mod dummylike {
         }
     }
 }
-pub use dummylike::{DummyLike, DummyLikeClient};
+pub use dummylike::DummyLike;
